@@ -176,7 +176,11 @@ def run_conc(sess, spec, loop_bound=6, max_rounds=8, timeout_s=600, max_spurious
             s0.pc = []
             s0.po = 0
             s0.marks = []
+            tx = time.time()
             lv = eng.explore(spec['threads'][i - 1][1], s0, env=env, thread=i)
+            if os.environ.get('IRSYM_DEBUG'):
+                print('  explore round', rounds, 'thread', i, 'paths', len(lv), 'events', sum(len(l.events) for l in lv[:1]),
+                      'took %.1fs' % (time.time() - tx), 'queries', eng.nqueries, 'hits', eng.model_hits, flush=True)
             leaves[i] = lv
             new_summ[i] = summarize(eng, lv)
             new_objs[i] = heap_objs(lv, i)
